@@ -53,6 +53,7 @@ CONFIG = dict(
                  "invalid keywords make the client close the connection before anything is flushed; the model says so under the assumption that fewer than 4096 bytes were pending (bufio)",
                  "STARTTLS and AUTHENTICATE as state-changing events are not driven here (C17 / C05 cover the capability reset there); commands are issued one after the other (no pipelining of the probe with other literal-bearing commands; concurrent use is C13)"],
     leanchecker=True,
+    source_facts=True,
     level_text="proof: END TO END (conforms) — for every capability set, enabled set, modelled command, argument strings and every pattern "
                "of server answers (+ / tagged NO / tagged BAD to each synchronising literal), the bytes the mirrored client writes and the "
                "moments it writes them are accepted by an independent byte scanner written from the RFC grammar: one well-formed command (or "
